@@ -108,6 +108,21 @@ func (c *Collection) view(
 	if result, err = c.getViewRows(view, &params); err != nil {
 		return
 	}
+	// A view can emit the same key for several documents, and a `keys` query must return all of their rows;
+	// sgbucket's FilterKeys keeps a single row per requested key, so select the rows here instead.
+	if params.Keys != nil {
+		var collator sgbucket.JSONCollator
+		filtered := make(sgbucket.ViewRows, 0, len(result.Rows))
+		for _, key := range params.Keys {
+			for _, row := range result.Rows {
+				if collator.Collate(row.Key, key) == 0 {
+					filtered = append(filtered, row)
+				}
+			}
+		}
+		result.Rows = filtered
+		params.Keys = nil
+	}
 	// Filter and reduce:
 	err = result.ProcessParsed(params, c, view.reduceFnSource)
 	debug("\tView --> %d rows", result.TotalRows)
